@@ -55,11 +55,15 @@ def reference():
     return _REF["ref"]
 
 
-def split_case(assign):
+ENDINGS = ["\n", "", "\n# trailing comment", "  ", "\r\n"]
+
+
+def split_case(assign, ending=0):
     files = {}
     for d, loc in zip(DEFS, assign):
         files.setdefault(LOCS[loc], []).append(d)
-    tree = [(path, "\n".join(parts) + "\n") for path, parts in files.items()]
+    # how each file ends is part of the input space: no final newline, a final comment, trailing blanks, CRLF
+    tree = [(path, "\n".join(parts) + ENDINGS[ending]) for path, parts in files.items()]
     r = gen.generate({"schema": tree, "queries": OPS})
     if not r["ok"]:
         return [f"generation failed for the split {assign}: {r['exc_type']}: {r['exc_msg'][:150]}"]
@@ -74,11 +78,14 @@ def split_case(assign):
     return probs
 
 
-def _split_check(vals) -> bool:
+def _split_check(vals, ending=0) -> bool:
     assign = [pick(v, NLOC) for v in vals]
+    # file endings are explored for the assignments whose 3rd and 4th definition sit in the first file (a ninth of all
+    # partitions); the remaining assignments use a final newline
+    e = pick(ending, len(ENDINGS)) if (assign[2] == 0 and assign[3] == 0) else 0
     with NoTracing():
         with opened_auditwall():
-            probs = split_case(assign)
+            probs = split_case(assign, e)
     return not probs
 
 
@@ -86,7 +93,7 @@ def parts_source() -> str:
     out = ["from harness.C19_sources import _split_check", ""]
     for a in range(NLOC):
         for b in range(NLOC):
-            out.append(f"def check_split_{a}{b}(d2: int, d3: int, d4: int, d5: int) -> bool:\n    \"\"\"\n    post: _\n    \"\"\"\n    return _split_check([{a}, {b}, d2, d3, d4, d5])\n")
+            out.append(f"def check_split_{a}{b}(d2: int, d3: int, d4: int, d5: int, ending: int) -> bool:\n    \"\"\"\n    post: _\n    \"\"\"\n    return _split_check([{a}, {b}, d2, d3, d4, d5], ending)\n")
     return "\n".join(out)
 
 
